@@ -541,6 +541,13 @@ SPECIALISE_CASES_2 = [
     ('g_call_in_condition', [(None,), (5,), (500,), (0.5,)]),
     ('g_call_in_expression', [(-2,), (0,), (3,)]),
 ]
+SPECIALISE_CASES_3 = [
+    ('g_try_helper_in_condition', [(['a', 'bad', 'a', 'a'],), ([],)]),
+    ('g_table_of_names', [('c',)]),
+    ('g_get_dispatch', [('closed', False, 2, 2), ('open', False, 2, 2), ('open', True, 2, 2), ('fuzzy', False, 2, 2.5), (None, False, 2, 9)]),
+    ('g_dispatch_dict', [('a', [1, 2]), ('b', [1, 2]), ('c', [1, 2])]),
+    ('g_rows', [((True, False), ('x', 'y')), ((True, True), ('', 'y'))]),
+]
 
 
 class Sorter:
@@ -594,3 +601,95 @@ class Sorter:
     def g_call_in_expression(self, v):
         label = 'k=' + self._classify(v, False) + '.'
         return [label, self._classify(v, True)]
+
+
+class Copier:
+    def __init__(self):
+        self.log = []
+
+    def _try_copy(self, src, dst):
+        try:
+            if src == 'bad':
+                raise IOError('cannot read')
+            self.log.append(('copied', src, dst))
+            return True
+        except IOError:
+            self.log.append(('failed', src))
+            return False
+
+    def _place(self, name, taken):
+        stem = 'ref/' + name
+        if stem not in taken:
+            return stem, None
+        k = 1
+        while stem + str(k) in taken:
+            k += 1
+        return stem + str(k), name + str(k)
+
+    def g_try_helper_in_condition(self, names):
+        failures = False
+        taken = set()
+        mapped = {}
+        for n in names:
+            dst, alias = self._place(n, taken)
+            if alias is not None:
+                mapped[n] = alias
+            taken.add(dst)
+            if not self._try_copy(n, dst):
+                failures = True
+        return failures, sorted(taken), mapped
+
+    KINDS = {'lo': 'get_lo', 'hi': 'get_hi'}
+    PICK = {'closed': operator.ge, 'open': operator.gt}
+
+    def get_lo(self, c):
+        self.log.append(('lo', c))
+        return 2
+
+    def get_hi(self, c):
+        self.log.append(('hi', c))
+        return 5
+
+    def _stat(self, key, c):
+        fn = getattr(self, self.KINDS[key])
+        return fn(c)
+
+    def g_table_of_names(self, c):
+        return self._stat('lo', c) + self._stat('hi', c)
+
+    def _mode(self, precision, is_date):
+        if precision == 'closed' or is_date:
+            return 'closed'
+        if precision == 'open':
+            return 'open'
+        return 'fuzzy'
+
+    def g_get_dispatch(self, precision, is_date, a, b):
+        exact = self.PICK.get(self._mode(precision, is_date))
+        result = exact(a, b) if exact else abs(a - b) < 1
+        self.log.append(result)
+        return result
+
+    def _first(self, xs):
+        return xs[0]
+
+    def _second(self, xs):
+        return xs[1]
+
+    def g_dispatch_dict(self, which, xs):
+        pickers = {'a': self._first, 'b': self._second, 'c': self._first}
+        if which not in pickers:
+            raise ValueError('no such picker')
+        pick = pickers[which]
+        got = pick(xs)
+        return got
+
+    def _emit(self, name, flag, text):
+        if flag:
+            self.log.append((name, text or '(empty)'))
+
+    def g_rows(self, flags, texts):
+        rows = (('out', flags[0], texts[0]), ('err', flags[1], texts[1]))
+        for (name, flag, text) in rows:
+            self._emit(name, flag, text)
+        return len(self.log)
